@@ -207,6 +207,7 @@ var (
 	c36Sink     = common.HexToAddress("0x5100000000000000000000000000000000003610")
 	c36EnvRec   = common.HexToAddress("0xe400000000000000000000000000000000003611") // stores every block-context field it can observe
 	c36SlotRec  = common.HexToAddress("0xe500000000000000000000000000000000003612") // stores SLOTNUM (Amsterdam)
+	c36PrecRec  = common.HexToAddress("0xe600000000000000000000000000000000003613") // STATICCALLs a list of precompiles and stores success flag, return size and gas spent
 )
 
 // c36EnvOps are the block-context opcodes the environment recorder stores, slot k = value of op k;
@@ -295,6 +296,7 @@ func c36NewWorld(f c36Fork) *c36World {
 	}
 	envrec.Push(1).Op(vm.NUMBER, vm.SUB, vm.BLOCKHASH).Push(len(c36EnvOps)).Op(vm.SSTORE, vm.STOP)
 	alloc[c36EnvRec] = types.Account{Code: envrec.Bytes(), Nonce: 1, Balance: common.Big0}
+	alloc[c36PrecRec] = types.Account{Code: c36PrecRecorderCode(), Nonce: 1, Balance: common.Big0}
 	alloc[c36SlotRec] = types.Account{Code: program.New().Op(vm.SLOTNUM).Push(0).Op(vm.SSTORE, vm.STOP).Bytes(), Nonce: 1, Balance: common.Big0}
 	w.gspec = &core.Genesis{Config: f.cfg, Alloc: alloc, GasLimit: 30_000_000, BaseFee: big.NewInt(params.InitialBaseFee), Timestamp: 1_700_000_000}
 
@@ -355,10 +357,99 @@ func c36NewWorld(f c36Fork) *c36World {
 		// differs between building and import (or from the sealed header) changes the state root
 		{"ENVREC", dyn(17, 0, &c36EnvRec, 0, 3_000_000, gwei(10), cg(450), nil), "always"},
 		{"SLOTREC", dyn(18, 0, &c36SlotRec, 0, 1_000_000, gwei(10), cg(350), nil), "always"},
+		// precompile recorder: every cacheable precompile family with an accepted and a well-sized rejected input
+		{"PRECREC", dyn(19, 0, &c36PrecRec, 0, 10_000_000, gwei(10), cg(250), c36PrecCalldata()), "always"},
 	}
 	w.entries[0].includable = "unless:NONCE_DUP"           // XFER has the same sender and nonce as NONCE_DUP, which pays more
 	w.entries[1].includable = "after-any:XFER,NONCE_DUP" // XFER2 needs nonce 0 of its sender to be used
 	return w
+}
+
+// ---------------------------------------------------------------------------
+// precompile recorder
+
+// c36PrecCall is one STATICCALL of the precompile recorder.
+type c36PrecCall struct {
+	name  string
+	addr  byte
+	input []byte
+	fails bool // the precompile's Run returns an error for this (well-sized) input
+	level int  // rule-set level from which the address is a precompile: 0 cancun, 1 prague, 2 osaka
+}
+
+func c36Pad32(v uint64) []byte { return common.LeftPadBytes(new(big.Int).SetUint64(v).Bytes(), 32) }
+
+// c36PrecCalls lists, for every cacheable precompile family, an input that is
+// accepted and an input of the right size that the precompile rejects.
+func c36PrecCalls() []c36PrecCall {
+	cat := func(parts ...[]byte) []byte {
+		var out []byte
+		for _, p := range parts {
+			out = append(out, p...)
+		}
+		return out
+	}
+	zeros := func(n int) []byte { return make([]byte, n) }
+	blake := func(final byte) []byte {
+		in := zeros(213)
+		in[3] = 1 // one round
+		in[212] = final
+		return in
+	}
+	bls := func(v uint64) []byte { return common.LeftPadBytes(new(big.Int).SetUint64(v).Bytes(), 64) }
+	return []c36PrecCall{
+		{"ecrecover(zeros)", 0x01, zeros(128), false, 0},
+		{"bn254add(inf,inf)", 0x06, zeros(128), false, 0},
+		{"bn254add(point-not-on-curve)", 0x06, cat(c36Pad32(1), c36Pad32(1), zeros(64)), true, 0},
+		{"bn254mul(inf,2)", 0x07, cat(zeros(64), c36Pad32(2)), false, 0},
+		{"bn254mul(point-not-on-curve)", 0x07, cat(c36Pad32(1), c36Pad32(1), c36Pad32(2)), true, 0},
+		{"bn254pairing(empty)", 0x08, nil, false, 0},
+		{"bn254pairing(point-not-on-curve)", 0x08, cat(c36Pad32(1), c36Pad32(1), zeros(128)), true, 0},
+		{"blake2f(final=1)", 0x09, blake(1), false, 0},
+		{"blake2f(final=2)", 0x09, blake(2), true, 0},
+		{"kzg-point-evaluation(zeros)", 0x0a, zeros(192), true, 0},
+		{"bls12-g1add(inf,inf)", 0x0b, zeros(256), false, 1},
+		{"bls12-g1add(point-not-on-curve)", 0x0b, cat(bls(1), bls(1), zeros(128)), true, 1},
+	}
+}
+
+// c36PrecCalldata encodes the calls as records [address word][length word][input].
+func c36PrecCalldata() []byte {
+	var out []byte
+	for _, c := range c36PrecCalls() {
+		out = append(out, c36Pad32(uint64(c.addr))...)
+		out = append(out, c36Pad32(uint64(len(c.input)))...)
+		out = append(out, c.input...)
+	}
+	return out
+}
+
+// c36PrecRecorderCode: for every record at calldata offset `off`:
+// ok = STATICCALL(200000 gas, address, input); SSTORE(off+1, ok + 1 + 256*(RETURNDATASIZE+1)); SSTORE(off+2, gas spent around the call).
+func c36PrecRecorderCode() []byte {
+	p := program.New().Push(0) // off
+	loop := p.Size()
+	p.Op(vm.JUMPDEST)
+	p.Op(vm.DUP1, vm.CALLDATASIZE, vm.GT, vm.ISZERO).Op(vm.PUSH2)
+	patch := p.Size()
+	p.Append([]byte{0, 0}).Op(vm.JUMPI)
+	p.Op(vm.DUP1).Push(32).Op(vm.ADD, vm.CALLDATALOAD)                  // [off, len]
+	p.Op(vm.DUP1, vm.DUP3).Push(64).Op(vm.ADD).Push(0).Op(vm.CALLDATACOPY) // mem[0:len] = input
+	p.Op(vm.GAS)                                                         // [off, len, g0]
+	p.Push(0).Push(0).Op(vm.DUP4).Push(0)                               // outSize, outOff, inSize, inOff
+	p.Op(vm.DUP7, vm.CALLDATALOAD)                                       // address
+	p.Push(200_000).Op(vm.STATICCALL)                                    // [off, len, g0, ok]
+	p.Op(vm.SWAP1, vm.GAS, vm.SWAP1, vm.SUB)                             // [off, len, ok, g0-gas]
+	p.Op(vm.DUP4).Push(2).Op(vm.ADD, vm.SSTORE)                          // SSTORE(off+2, spent)  [off, len, ok]
+	p.Push(1).Op(vm.ADD, vm.RETURNDATASIZE).Push(1).Op(vm.ADD).Push(256).Op(vm.MUL, vm.ADD) // ok+1+256*(rds+1)
+	p.Op(vm.DUP3).Push(1).Op(vm.ADD, vm.SSTORE)                          // SSTORE(off+1, ...)    [off, len]
+	p.Op(vm.ADD).Push(64).Op(vm.ADD)                                     // off += len + 64
+	p.Op(vm.PUSH2).Append([]byte{byte(loop >> 8), byte(loop)}).Op(vm.JUMP)
+	exit := p.Size()
+	p.Op(vm.JUMPDEST, vm.STOP)
+	b := p.Bytes()
+	b[patch], b[patch+1] = byte(exit>>8), byte(exit)
+	return b
 }
 
 // ---------------------------------------------------------------------------
@@ -448,7 +539,7 @@ func TestVerif_C36(t *testing.T) {
 	mc.Run(t, "C36", func(r *mc.R) {
 		maxSize := mc.Pick(r, 3, 4)
 		r.Rule("rule sets {cancun, prague, osaka, amsterdam} x 3 payload-attribute combinations (withdrawals none / one / two incl. a zero amount and a sender, beacon root zero / set, random zero / set, fee recipient fresh / a sender, miner blob cap default / 2) " +
-			"x every subset of <= max_pool_size transactions of the 22-entry alphabet as pool content (quick: subsets of 2 and 3 transactions take one attribute combination each, round robin); per case the empty and the full payload are round-tripped through engine executable data and imported on an independent chain; " +
+			"x every subset of <= max_pool_size transactions of the 23-entry alphabet as pool content (quick: subsets of 2 and 3 transactions take one attribute combination each, round robin); per case the empty and the full payload are round-tripped through engine executable data and imported on an independent chain; " +
 			"distinct = distinct imported block hashes")
 		r.Bound("max_pool_size", maxSize)
 		r.Assume("the pool is a stub txpool.SubPool that hands the builder the enumerated content unfiltered (superset of what the real legacy/blob pools would return); blob sidecars carry dummy commitments/proofs (nothing on the build/import path verifies KZG proofs)")
@@ -531,7 +622,7 @@ func TestVerif_C36(t *testing.T) {
 			desc := map[string]any{"fork": j.w.fork.name, "attrs": j.a.name, "pool": names}
 			g := getRig(j.w, j.a)
 			defer putRig(g)
-			r.Case(desc, func() error { return g.check(r, j.subset, i%32 == 0 || len(j.subset) <= 1) })
+			r.Case(desc, func() error { return g.check(r, j.subset, i%4 == 0 || len(j.subset) <= 1, i%32 == 0 || len(j.subset) <= 1) })
 			if i%211 == 0 {
 				r.Sample(desc)
 			}
@@ -539,7 +630,7 @@ func TestVerif_C36(t *testing.T) {
 	})
 }
 
-func (g *c36Rig) check(r *mc.R, subset []int, freshChain bool) error {
+func (g *c36Rig) check(r *mc.R, subset []int, independent, freshChain bool) error {
 	w, a := g.w, g.attrs
 	var content []*types.Transaction
 	byHash := map[common.Hash]string{}
@@ -584,10 +675,10 @@ func (g *c36Rig) check(r *mc.R, subset []int, freshChain bool) error {
 	if n := len(empty.ExecutionPayload.Transactions); n != 0 {
 		return fmt.Errorf("empty payload carries %d transactions", n)
 	}
-	if err := g.importPayload(r, "empty", args, empty, nil, nil, false); err != nil {
+	if err := g.importPayload(r, "empty", args, empty, nil, nil, independent, false); err != nil {
 		return err
 	}
-	if err := g.importPayload(r, "full", args, full, fullBlock, fullReceipts, freshChain); err != nil {
+	if err := g.importPayload(r, "full", args, full, fullBlock, fullReceipts, independent, freshChain); err != nil {
 		return err
 	}
 
@@ -641,7 +732,7 @@ func (g *c36Rig) check(r *mc.R, subset []int, freshChain bool) error {
 
 // importPayload converts the envelope back into a block the way a consensus
 // client's newPayload call arrives and imports it on the independent chain.
-func (g *c36Rig) importPayload(r *mc.R, kind string, args *BuildPayloadArgs, env *engine.ExecutionPayloadEnvelope, built *types.Block, builtReceipts []*types.Receipt, freshChain bool) error {
+func (g *c36Rig) importPayload(r *mc.R, kind string, args *BuildPayloadArgs, env *engine.ExecutionPayloadEnvelope, built *types.Block, builtReceipts []*types.Receipt, independent, freshChain bool) error {
 	w := g.w
 	data := env.ExecutionPayload
 	// versioned hashes as the consensus client derives them: from the bundle's commitments
@@ -715,34 +806,45 @@ func (g *c36Rig) importPayload(r *mc.R, kind string, args *BuildPayloadArgs, env
 	if env.BlobsBundle != nil && len(env.BlobsBundle.Blobs) != blobs {
 		return fmt.Errorf("%s: bundle has %d blobs, block references %d", kind, len(env.BlobsBundle.Blobs), blobs)
 	}
-	// import on the independent chain
-	if g.importer.HasBlock(block.Hash(), block.NumberU64()) {
-		r.Outcome(kind + ":identical-block-already-imported")
-	} else {
-		if _, err := g.importer.InsertBlockWithoutSetHead(context.Background(), block, false); err != nil {
-			return fmt.Errorf("%s payload rejected by block import: %v", kind, err)
+	// Import. Always on the chain instance the block was built on (what a node does with its own
+	// payload: builder and importer share the chain's precompile-result, jump-destination and code
+	// caches); in addition on the independent long-lived chain for every 4th case and all pools of
+	// size <= 1, and on a fresh chain (below).
+	importOn := func(chain *core.BlockChain, where string) error {
+		if chain.HasBlock(block.Hash(), block.NumberU64()) {
+			r.Outcome(kind + ":" + where + ":identical-block-already-imported")
+			return nil
 		}
-		r.DistinctHash(mc.Hash64(string(block.Hash().Bytes())))
-		r.Outcome(fmt.Sprintf("%s:imported:txs=%d", kind, len(block.Transactions())))
+		if _, err := chain.InsertBlockWithoutSetHead(context.Background(), block, false); err != nil {
+			return fmt.Errorf("%s payload rejected by block import on %s: %v", kind, where, err)
+		}
+		r.Outcome(fmt.Sprintf("%s:%s:imported:txs=%d", kind, where, len(block.Transactions())))
 		if len(requests) > 0 {
-			r.Outcome(kind + ":imported:with-requests")
+			r.Outcome(kind + ":" + where + ":imported:with-requests")
 		}
 		if builtReceipts != nil {
-			got := g.importer.GetReceiptsByHash(block.Hash())
+			got := chain.GetReceiptsByHash(block.Hash())
 			if len(got) != len(builtReceipts) {
-				return fmt.Errorf("%s: importer stored %d receipts, builder produced %d", kind, len(got), len(builtReceipts))
+				return fmt.Errorf("%s: import on %s stored %d receipts, builder produced %d", kind, where, len(got), len(builtReceipts))
 			}
 			for i := range got {
 				a, b := got[i], builtReceipts[i]
 				if a.Status != b.Status || a.GasUsed != b.GasUsed || a.CumulativeGasUsed != b.CumulativeGasUsed || a.TxHash != b.TxHash || len(a.Logs) != len(b.Logs) || a.Bloom != b.Bloom {
-					return fmt.Errorf("%s: receipt %d differs between importer (status %d gas %d cum %d logs %d) and builder (status %d gas %d cum %d logs %d)", kind, i,
+					return fmt.Errorf("%s: receipt %d differs between import on %s (status %d gas %d cum %d logs %d) and builder (status %d gas %d cum %d logs %d)", kind, i, where,
 						a.Status, a.GasUsed, a.CumulativeGasUsed, len(a.Logs), b.Status, b.GasUsed, b.CumulativeGasUsed, len(b.Logs))
 				}
 			}
 		}
+		return g.checkRecorders(r, kind+":"+where, chain, block)
 	}
-	if err := g.checkRecorders(r, kind, block); err != nil {
+	if err := importOn(g.builder, "same-chain-instance"); err != nil {
 		return err
+	}
+	r.DistinctHash(mc.Hash64(string(block.Hash().Bytes())))
+	if independent {
+		if err := importOn(g.importer, "independent-chain"); err != nil {
+			return err
+		}
 	}
 	if freshChain {
 		// full import with head update on a chain created for this block only
@@ -797,7 +899,7 @@ func c36Includable(rule string, inPool map[string]bool, prague bool) bool {
 // checkRecorders reads what the environment recorder transactions stored in the
 // imported state and compares it with the sealed header: the block context the
 // transactions ran in must be the one the header describes.
-func (g *c36Rig) checkRecorders(r *mc.R, kind string, block *types.Block) error {
+func (g *c36Rig) checkRecorders(r *mc.R, kind string, chain *core.BlockChain, block *types.Block) error {
 	w := g.w
 	h := block.Header()
 	var envPos, slotPos = -1, -1
@@ -809,14 +911,20 @@ func (g *c36Rig) checkRecorders(r *mc.R, kind string, block *types.Block) error 
 			slotPos = i
 		}
 	}
-	if envPos < 0 && slotPos < 0 {
+	precPos := -1
+	for i, tx := range block.Transactions() {
+		if tx.To() != nil && *tx.To() == c36PrecRec {
+			precPos = i
+		}
+	}
+	if envPos < 0 && slotPos < 0 && precPos < 0 {
 		return nil
 	}
-	st, err := g.importer.StateAt(h)
+	st, err := chain.StateAt(h)
 	if err != nil {
 		return fmt.Errorf("%s: state of the imported block unavailable: %v", kind, err)
 	}
-	receipts := g.importer.GetReceiptsByHash(block.Hash())
+	receipts := chain.GetReceiptsByHash(block.Hash())
 	word := func(addr common.Address, k int) common.Hash { return st.GetState(addr, common.BigToHash(big.NewInt(int64(k)))) }
 	if envPos >= 0 {
 		if receipts[envPos].Status != types.ReceiptStatusSuccessful {
@@ -834,6 +942,32 @@ func (g *c36Rig) checkRecorders(r *mc.R, kind string, block *types.Block) error 
 			}
 		}
 		r.Outcome(kind + ":environment-recorded=header")
+	}
+	if precPos >= 0 {
+		if receipts[precPos].Status != types.ReceiptStatusSuccessful {
+			return fmt.Errorf("%s: precompile recorder failed (status %d, gas %d)", kind, receipts[precPos].Status, receipts[precPos].GasUsed)
+		}
+		level := 0
+		if w.fork.prague {
+			level = 1
+		}
+		if w.fork.osaka {
+			level = 2
+		}
+		off := 0
+		for _, c := range c36PrecCalls() {
+			v := new(big.Int).SetBytes(word(c36PrecRec, off+1).Bytes())
+			flag := int(v.Uint64()&0xff) - 1
+			want := 1
+			if c.fails && level >= c.level {
+				want = 0
+			}
+			if flag != want {
+				return fmt.Errorf("%s: precompile call %s: success flag %d in the imported state, the precompile's specification gives %d", kind, c.name, flag, want)
+			}
+			off += 64 + len(c.input)
+		}
+		r.Outcome(kind + ":precompile-results-as-specified")
 	}
 	if slotPos >= 0 {
 		ok := receipts[slotPos].Status == types.ReceiptStatusSuccessful
